@@ -212,6 +212,8 @@ type matchCfg struct {
 	forcePos bool
 	// nth: field ranges the search is restricted to (the terminal's current --nth / change-nth value)
 	nth []Range
+	// delim: --delimiter (a plain string; "" = the default AWK-style fields)
+	delim string
 	// schemeLast: --scheme was given after --tiebreak, so the tiebreak the scheme implies is in force
 	// (man page: path sets --tiebreak=pathname,length, history sets --tiebreak=index)
 	schemeLast bool
@@ -296,7 +298,12 @@ func (m matchCfg) pattern(cache *ChunkCache, pc map[string]*Pattern, rev revisio
 		fa = algo.FuzzyMatchV1
 	}
 	cm := []Case{CaseSmart, CaseIgnore, CaseRespect}[((m.Case%3)+3)%3]
-	return BuildPattern(cache, pc, m.Fuzzy, fa, m.Extended, cm, m.Normal, forward, withPos, cacheable, m.nth, Delimiter{}, rev, []rune(q), nil)
+	dl := Delimiter{}
+	if m.delim != "" {
+		d := m.delim
+		dl = Delimiter{str: &d}
+	}
+	return BuildPattern(cache, pc, m.Fuzzy, fa, m.Extended, cm, m.Normal, forward, withPos, cacheable, m.nth, dl, rev, []rune(q), nil)
 }
 
 // ---------------------------------------------------------------------------
